@@ -301,13 +301,26 @@ func (s *state) WritePayload(ctx context.Context, transaction Transaction, paylo
 		Transaction: transaction,
 		Payload:     data,
 	}
+	payloadWritten := false
 	return s.db.Write(ctx, func(tx stoabs.WriteTx) error {
+		// Payload already present, nothing to do: its event was saved (and emitted) when the payload was written.
+		// This happens when multiple peers respond to a TransactionPayloadQuery.
+		// Saving the event again would re-create jobs that subscribers already finished, causing them to be notified again.
+		if s.payloadStore.isPayloadPresent(tx, payloadHash) {
+			return nil
+		}
+
+		// control the afterCommit hook
+		payloadWritten = true
+
 		if err := s.saveEvent(tx, event); err != nil {
 			return err
 		}
 		return s.payloadStore.writePayload(tx, payloadHash, data)
 	}, stoabs.AfterCommit(func() {
-		s.notify(event)
+		if payloadWritten {
+			s.notify(event)
+		}
 	}), stoabs.WithWriteLock())
 }
 
